@@ -47,7 +47,8 @@ def main():
         tname = "seeddemo"
         shutil.copy(demo, os.path.join(WT, "tests", tname + ".rs"))
         rc1, out1 = sh("cargo test --offline --test %s 2>&1 | grep -E '^test result|error\\[' | head -3" % tname, cwd=WT)
-        demo_fail = "FAILED" in out1 or "failed" in out1 and "0 failed" not in out1
+        rc1b, out1b = sh("cargo test --offline --test %s >/dev/null 2>&1; echo rc=$?" % tname, cwd=WT)
+        demo_fail = "FAILED" in out1 or ("failed" in out1 and "0 failed" not in out1) or "rc=0" not in out1b
         sh("git checkout -- . ", cwd=WT)
         rc2, out2 = sh("cargo test --offline --test %s 2>&1 | grep -E '^test result|error\\[' | head -3" % tname, cwd=WT)
         demo_pass = "test result: ok" in out2
